@@ -2,7 +2,7 @@
  * @props C08
  * @tier quick
  * @functions ZSTD_loadCEntropy ZSTD_dictNCountRepeat
- * @bounds dictionary of 8..72 arbitrary bytes (tail-aligned); the entropy parsers return ANY result allowed by their contracts: consumed length 1..available, any last symbol <= requested, any tableLog <= 15, any normalized counts (every short value), any zero-weight flag
+ * @bounds dictionary of 8..72 arbitrary bytes (16 readable bytes behind it; ranges handed to the parsers and the section size are checked against the dictionary explicitly); the entropy parsers return ANY result allowed by their contracts: consumed length 1..available, any last symbol <= requested, any tableLog <= 15, any normalized counts (every short value), any zero-weight flag
  * @assume HUF_readCTable, FSE_readNCount and FSE_buildCTable_wksp are contract stubs (FSE_readNCount's contract is the post-condition proved by c03.ncount); they check that the range they are handed lies inside the dictionary
  * @outside the table contents themselves (real FSE/HUF construction on dictionary tables); decoder-side twin ZSTD_loadDEntropy (c08.dentropy_glue)
  * @link lib/common/zstd_common.c lib/common/error_private.c
@@ -16,7 +16,8 @@
 #include "compress/zstd_compress.c"
 
 #define DMAX 72
-static BYTE g_arena[V_SLACK + DMAX];
+#define BACK 16    /* readable bytes behind the dictionary: the function's own end test forms dictPtr+12 beyond a short dictionary, and CBMC cuts paths on out-of-object pointers */
+static BYTE g_arena[V_SLACK + DMAX + BACK];
 static const BYTE* g_dict; static size_t g_dictSize;
 static short g_norm[3][MaxML + 1]; static unsigned g_maxSV[3]; static int g_calls;
 static ZSTD_compressedBlockState_t g_bs;
@@ -57,7 +58,7 @@ void harness(void)
 {
     size_t const dictSize = nondet_size(); size_t r; unsigned i;
     VASSUME(dictSize >= 8 && dictSize <= DMAX);
-    g_dict = g_arena + sizeof g_arena - dictSize; g_dictSize = dictSize;
+    g_dict = g_arena + sizeof g_arena - BACK - dictSize; g_dictSize = dictSize;
     for (i = 0; i < DMAX; i++) g_arena[V_SLACK + i] = nondet_uchar();
     r = ZSTD_loadCEntropy(&g_bs, g_wksp, g_dict, dictSize);
     if (!ZSTD_isError(r)) {
